@@ -111,9 +111,9 @@ let run (type a) (k : a c01_ops) (parse : string -> a) (show : a -> string)
      | "vsub" -> inplace (viaobjs k.c01_sub (c01_vsub k x y)) (c01s_vsub k x y)
      | "vplus" when rep = "SW" ->
        (* literal model of the view: the result is another view of the same scalar (finding F-C01-4): operand altered *)
-       let (z, xa) = c01_view_binop k.c01_add (List.hd x) (List.hd y) in (obs (show z) (show xa) (sv y), obs (sv (c01s_vadd k x y)) (sv x) (sv y))
+       let (z, st') = c01_cell_binop k k.c01_add [List.hd x; List.hd y] O (S O) in (obs (show z) (show (List.hd st')) (sv y), obs (sv (c01s_vadd k x y)) (sv x) (sv y))
      | "vminus" when rep = "SW" ->
-       let (z, xa) = c01_view_binop k.c01_sub (List.hd x) (List.hd y) in (obs (show z) (show xa) (sv y), obs (sv (c01s_vsub k x y)) (sv x) (sv y))
+       let (z, st') = c01_cell_binop k k.c01_sub [List.hd x; List.hd y] O (S O) in (obs (show z) (show (List.hd st')) (sv y), obs (sv (c01s_vsub k x y)) (sv x) (sv y))
      | "vplus" -> fresh (sv (c01_vplus k x y)) (sv (c01s_vadd k x y))
      | "vminus" -> fresh (sv (c01_vminus k x y)) (sv (c01s_vsub k x y))
      | "vneg" ->
@@ -384,6 +384,37 @@ let run (type a) (k : a c01_ops) (parse : string -> a) (show : a -> string)
     let a2 = c01_mscale k a two in
     (obs (sv (c01_tw_mv (c01_mtv k a) x y)) (sv (c01_tw_mv (c01_mtv k a2) x y)) (sm a),
      obs (sv (c01s_assign k C01_T nc a x)) (sv (c01s_assign k C01_T nc (c01s_mscale k two a) x)) (sm a))
+  (* every 1x1 / size-1 representation as receiver and as argument; views are reference cells: store [a; b], the receiver is cell 0,
+     the argument cell 1, or cell 0 again when it is a second view of the receiver's scalar (rep2 = SS).  Model = the code after
+     fixes C01-6 / C01-7 *)
+  | _ when String.length op > 3 && (String.sub op 0 3 = "xr_" || String.sub op 0 3 = "xw_") ->
+    let s = take1 () in let a = take1 () in let b = take1 () in
+    let st = [a; b] in
+    let m = if rep2 = "SS" then nat_of_int 0 else nat_of_int 1 in
+    let o = String.sub op 3 (String.length op - 3) in
+    let cell l i = List.nth l i in
+    let after st' = obs (show (cell st' 0)) (show (cell st' 0)) (show (cell st' (if rep2 = "SS" then 0 else 1))) in
+    let bval = if rep2 = "SS" then a else b in
+    let inpl st' v = (after st', obs (show v) (show v) (show (if rep2 = "SS" then v else b))) in
+    let fresh r v = (obs r (show a) (show bval), obs v (show a) (show bval)) in
+    let upd0 v = c01_upd st O v in
+    (match o with
+     | "leftmultiply" -> inpl (c01_cell_leftmultiply k st O m) (k.c01_mul bval a)
+     | "rightmultiply" -> inpl (c01_cell_rightmultiply k st O m) (k.c01_mul a bval)
+     | "madd" | "vadd" -> inpl (c01_cell_inplace k k.c01_add st O m) (k.c01_add a bval)
+     | "msub" | "vsub" -> inpl (c01_cell_inplace k k.c01_sub st O m) (k.c01_sub a bval)
+     | "maxpy" | "vaxpy" -> inpl (c01_cell_inplace k (fun x y -> k.c01_add x (k.c01_mul s y)) st O m) (k.c01_add a (k.c01_mul s bval))
+     | "mscale" | "vscale" -> inpl (upd0 (List.hd (c01_vscale k [a] s))) (k.c01_mul a s)
+     | "mdiv" | "vdiv" -> let q = get (k.c01_div a s) in inpl (upd0 (List.hd (get (c01_vdiv k [a] s)))) q
+     | "vadds" -> inpl (upd0 (List.hd (c01_vadds k [a] s))) (k.c01_add a s)
+     | "vsubs" -> inpl (upd0 (List.hd (c01_vsubs k [a] s))) (k.c01_sub a s)
+     | "meq" | "veq" -> fresh (b01 (c01_veq k [a] [bval])) (b01 (k.c01_eqb a bval))
+     | "vdotT" -> fresh (show (c01_vdotT k [a] [bval])) (show (k.c01_mul a bval))
+     | "vdot" -> fresh (show (c01_vdot k [a] [bval])) (show (k.c01_mul (k.c01_conj a) bval))
+     | "vplus" -> let (r, st') = c01_cell_binop k k.c01_add st O m in (obs (show r) (show (cell st' 0)) (show bval), obs (show (k.c01_add a bval)) (show a) (show bval))
+     | "vminus" -> let (r, st') = c01_cell_binop k k.c01_sub st O m in (obs (show r) (show (cell st' 0)) (show bval), obs (show (k.c01_sub a bval)) (show a) (show bval))
+     | "mneg" | "vneg" -> let (r, st') = c01_cell_neg k st O in (obs (show r) (show (cell st' 0)) (show bval), obs (show (k.c01_opp a)) (show a) (show bval))
+     | _ -> failwith "xr/xw op")
   | "xselfleft" | "xselfright" ->
     let a = takem r r in
     (* model: the code after fix C01-5 (aliased call goes through a copy of the factor) *)
